@@ -248,8 +248,11 @@ pub fn get_storage_variables_assigned_in_constructor(
 
             if let pt::ContractPart::FunctionDefinition(box_function_definition) = contract_part {
                 if let pt::FunctionTy::Constructor = box_function_definition.ty {
-                    let target_nodes =
-                        ast::extract_target_from_node(Target::Assign, source_unit.clone().into());
+                    //Only assignments inside of the constructor itself count
+                    let target_nodes = ast::extract_target_from_node(
+                        Target::Assign,
+                        pt::ContractPart::FunctionDefinition(box_function_definition).into(),
+                    );
 
                     for node in target_nodes {
                         //Can unwrap since Target::Assign will always be an expression
